@@ -6,7 +6,7 @@ from pv.check import run_check
 from pv.entail import entails
 from pv.expr import Ctx, guard_facts, key_contains, key_subst
 from pv.facts import AnalysisBroken, strip_targs
-from pv.loops import enclosing_loops, loop_shape, stmts_of
+from pv.loops import covers, enclosing_loops, loop_shape, stmts_of
 from pv.symenv import env_at, value_key
 from checks.lehmann import fld, THIS
 
@@ -127,13 +127,50 @@ def body(chk, db, cfgname):
             # the reduced monomial: m without positions n-1, n
             if rk[2][0] == "var" and nb is not None:
                 nvar = nb[1][3]
-                copies = [c for c in f.calls(callee_re=r"^std::copy") if key_contains(ctx.key(c, inline=False), lambda y: y[:2] == rk[2][:2])]
-                cks = sorted([ctx.key(c, inline=False)[2:4] for c in copies], key=repr)
-                beg, end = ("mcall", "std::vector::begin", m), ("mcall", "std::vector::end", m)
-                want = sorted([(beg, ("op", "-", ("op", "+", beg, nvar), ("lit", 1))), (("op", "+", ("op", "+", beg, nvar), ("lit", 1)), end)], key=repr)
-                alt = sorted([(beg, ("op", "+", beg, ("op", "-", nvar, ("lit", 1)))), (("op", "+", beg, ("op", "+", nvar, ("lit", 1))), end)], key=repr)
-                if cks not in (want, alt):
-                    probs.append("the contracted monomial is not m with the two factors at positions n-1, n removed")
+                # ranges of m appended to the new monomial: std::copy(first, last, back_inserter(new)) or new.insert(new.end(), first, last)
+                import sympy as _sp
+                nsym = _sp.Symbol("n")
+
+                def offset(k):
+                    """('b', e): m.begin() + e   /   ('e', e): m.end() + e   (e a sympy expression in n); None if not of that form"""
+                    if k[0] == "mcall" and k[1].split("::")[-1] in ("begin", "cbegin") and k[2] == m:
+                        return ("b", _sp.Integer(0))
+                    if k[0] == "mcall" and k[1].split("::")[-1] in ("end", "cend") and k[2] == m:
+                        return ("e", _sp.Integer(0))
+                    if k == nvar:
+                        return ("n", nsym)
+                    if k[0] == "lit" and isinstance(k[1], int):
+                        return ("n", _sp.Integer(k[1]))
+                    if k[0] == "cast":
+                        return offset(k[2])
+                    if k[0] == "op" and len(k) == 4 and k[1] in ("+", "-"):
+                        a1, b1 = offset(k[2]), offset(k[3])
+                        if a1 is None or b1 is None:
+                            return None
+                        sg = 1 if k[1] == "+" else -1
+                        if a1[0] in ("b", "e") and b1[0] == "n":
+                            return (a1[0], a1[1] + sg * b1[1])
+                        if a1[0] == "n" and b1[0] in ("b", "e") and sg == 1:
+                            return (b1[0], a1[1] + b1[1])
+                        if a1[0] == "n" and b1[0] == "n":
+                            return ("n", a1[1] + sg * b1[1])
+                    return None
+                ranges = []
+                for c in f.calls():
+                    cn_ = strip_targs(f.nodes[c].get("cname") or "")
+                    ck_ = ctx.key(c, inline=False)
+                    if cn_ == "std::copy" and key_contains(ck_, lambda y: y[:2] == rk[2][:2]) and len(ck_) >= 5:
+                        ranges.append((offset(ck_[2]), offset(ck_[3])))
+                    elif cn_ == "std::vector::insert" and f.nodes[c].get("obj") is not None and ctx.key(f.nodes[c]["obj"], inline=False)[:2] == rk[2][:2] and len(ck_) == 6:
+                        ranges.append((offset(ck_[4]), offset(ck_[5])))
+                if not ranges:
+                    raise AnalysisBroken("the way the contracted monomial is assembled is not recognised (neither std::copy nor insert of ranges of m)")
+                if any(a1 is None or b1 is None for a1, b1 in ranges):
+                    raise AnalysisBroken("a range appended to the contracted monomial is not of the form m.begin()+k / m.end()")
+                want_r = [(("b", _sp.Integer(0)), ("b", nsym - 1)), (("b", nsym + 1), ("e", _sp.Integer(0)))]
+                norm_r = [((a1[0], _sp.expand(a1[1])), (b1[0], _sp.expand(b1[1]))) for a1, b1 in ranges]
+                if norm_r != want_r:
+                    probs.append("the contracted monomial is not m with the two factors at positions n-1, n removed (ranges appended: %s)" % "; ".join("[%s%+d.. , %s%s)" % (a1[0], 0, b1[0], "") if False else "[%s, %s)" % (a1, b1) for a1, b1 in norm_r))
         if probs:
             r1.bad(site, f.loc(recs[0]) if recs else f.loc(), "; ".join(probs), cfgname)
         else:
@@ -154,7 +191,15 @@ def body(chk, db, cfgname):
         site = OP + "::normalize_and_insert:insert"
         ins = [c for c in f.calls() if strip_targs(f.nodes[c].get("cname") or "") == "std::map::insert" and ctx.key(f.nodes[c]["obj"]) == target]
         good = len(ins) == 1 and ctx.key(f.nodes[ins[0]]["args"][0], inline=False) in (("call", "std::make_pair", m, coeff), ("ctor", "std::pair", m, coeff))
-        if good:
+        if not ins:
+            # delegated to a helper that receives (target, m, coeff): not analysed here
+            helpers = [c for c in f.calls() if c not in recs and db.callee_fn(f.nodes[c]) is not None and db.callee_fn(f.nodes[c]).rec == OP and
+                       {m, coeff, target} <= set(ctx.key(a, inline=False) for a in f.nodes[c]["args"])]
+            if helpers:
+                r1.unknown(site, f.loc(helpers[0]), "the insertion of (m, coeff) into the target is delegated to %s" % f.nodes[helpers[0]].get("cname"), cfgname)
+            else:
+                r1.bad(site, f.loc(), "the normal-ordered monomial is not inserted as (m, coeff) into the target", cfgname)
+        elif good:
             r1.ok(site, f.loc(ins[0]), "the ordered monomial is inserted with the accumulated coefficient", cfgname)
         else:
             r1.bad(site, f.loc(), "the normal-ordered monomial is not inserted as (m, coeff) into the target", cfgname)
@@ -244,73 +289,137 @@ def body(chk, db, cfgname):
         Ls = enclosing_loops(f, Wt)
         n_ = f.nodes[Ls[-1]] if Ls else None
         probs = []
-        # outer loop: i from size-1 down to 0
+        unknowns = []
+        # ---- which factor is being applied, and in which order are the factors visited
+        factor = None          # key of the current factor
         if n_ is None:
             probs.append("the factors are not applied in a loop")
         else:
+            shp_o = loop_shape(f, ctx, Ls[-1])
+            size = ("mcall", "std::vector::size", mono)
             ini = f.nodes[n_["init"]]["vars"][0] if n_.get("init") is not None and f.nodes[n_["init"]]["k"] == "decl" else None
-            okdown = False
+            direction = None
             if ini is not None:
                 iv = ("var", ini["d"], ini["n"])
                 st = ctx.key(ini["init"])
-                size = ("mcall", "std::vector::size", mono)
-                cnd = ctx.cmp_fact(n_["c"], True)
-                inc = f.nodes[n_["inc"]]
-                okdown = st == ("op", "-", size, ("lit", 1)) and cnd == [("<=", ("lit", 0), iv)] and inc["k"] == "un" and inc["op"] == "--"
-            if not okdown:
-                probs.append("factors are not applied from the last (rightmost) to the first: the loop is not i = size-1 ... 0")
-        # op/ind come from in[i]
-        # Pauli: return error state if (creation && occupied) || (annihilation && empty), before the write
-        fa = at.get(f.cfg.pos1(Wt), frozenset())
-        bit = ("op", "[]", bra, ind)
-        opv = None
-        if wk[3][0] == "op" and wk[3][1] == "==" and ("enum", OP + "::creation", 0) in wk[3][2:]:
-            opv = [x for x in wk[3][2:] if x != ("enum", OP + "::creation", 0)][0]
-        elif wk[3][0] == "op" and wk[3][1] == "!=" and ("enum", OP + "::annihilation", 1) in wk[3][2:]:
-            opv = [x for x in wk[3][2:] if x != ("enum", OP + "::annihilation", 1)][0]
-        if opv is None:
+                cnd = ctx.cmp_fact(n_["c"], True) if n_.get("c") is not None else []
+                inc = f.nodes[n_["inc"]] if n_.get("inc") is not None else {}
+                incop = inc.get("op") if inc.get("k") in ("un", "call") else None
+                if st == ("op", "-", size, ("lit", 1)) and cnd == [("<=", ("lit", 0), iv)] and incop == "--":
+                    direction, factor = "down", ("op", "[]", mono, iv)
+                elif st[0] == "mcall" and st[1].split("::")[-1] in ("rbegin", "crbegin") and st[2] == mono and incop == "++" and \
+                        any(x[0] == "!=" and key_contains(x, lambda y: y[0] == "mcall" and y[1].split("::")[-1] in ("rend", "crend") and y[2] == mono) for x in cnd):
+                    direction, factor = "down", ("op", "*", iv)
+                elif covers(dict(shp_o, exits=[]), mono):      # ascending over all factors (the early return of the Pauli test is not a truncation of the order)
+                    direction = "up"
+            if direction == "up":
+                probs.append("factors are applied from the first (leftmost) to the last: a monomial acts on a ket with its rightmost factor first")
+            elif direction is None:
+                unknowns.append("the order in which the factors are visited is not recognised")
+        # ---- truth tables over (factor is a creation operator, mode occupied)
+        cre, ann = ("enum", OP + "::creation", 0), ("enum", OP + "::annihilation", 1)
+        tied = {}
+        for j, n in f.walk(f.body):
+            if n["k"] == "call" and n.get("ck") == "op" and n.get("op") == "=" and len(n["args"]) == 2:
+                lk_ = ctx.key(n["args"][0], inline=False)
+                if lk_[0] == "call" and lk_[1].split("::")[-1].startswith("tie") and len(lk_) == 4:
+                    tied[lk_[2][:2]] = 0
+                    tied[lk_[3][:2]] = 1
+
+        def comp_of(k):
+            """0 / 1 if key k denotes the type / the index component of the current factor"""
+            if k[0] == "var" and k[:2] in tied:
+                return tied[k[:2]]
+            if k[0] == "call" and "get<" in k[1] and len(k) == 3:
+                return 0 if ("get<0" in k[1] or "create_annihilate" in k[1] or "get<Pomerol::Operator::create_annihilate" in k[1]) else (1 if "get<1" in k[1] else None)
+            return None
+
+        def tt(k, is_cre, occ):
+            """value of boolean key k when the factor is a creation operator (is_cre) and mode `ind` is occupied (occ); None = unknown"""
+            if k[0] == "cast":
+                return tt(k[2], is_cre, occ)
+            if k[0] == "lit":
+                return bool(k[1])
+            if k[0] == "enum":
+                return ("enum", k == cre)
+            if k[0] == "mcall" and k[1].endswith("operator bool") and len(k) == 3:
+                return tt(k[2], is_cre, occ)
+            if k[0] == "op" and k[1] == "[]" and len(k) == 4 and k[2][:2] == bra[:2]:
+                return occ if (k[3] == ind or comp_of(k[3]) == 1 or comp_of(ctx.key_of_var(k[3]) if hasattr(ctx, "key_of_var") else k[3]) == 1) else None
+            if comp_of(k) == 0:
+                return ("type", is_cre)
+            if k[0] == "un" and k[1] == "!":
+                v = tt(k[2], is_cre, occ)
+                v = v[1] if isinstance(v, tuple) and v[0] == "type" else v
+                return None if v is None or isinstance(v, tuple) else (not v)
+            if k[0] == "op" and len(k) == 4 and k[1] in ("==", "!=", "&&", "||"):
+                a_, b_ = tt(k[2], is_cre, occ), tt(k[3], is_cre, occ)
+                if a_ is None or b_ is None:
+                    return None
+
+                def as_bool(v):
+                    # type component as bool: creation <-> true iff the enumerator `creation` converts to true
+                    if isinstance(v, tuple) and v[0] == "type":
+                        return v[1] if cre[2] else (not v[1])
+                    if isinstance(v, tuple) and v[0] == "enum":
+                        return bool(cre[2]) if v[1] else bool(ann[2])
+                    return v
+                if k[1] in ("==", "!="):
+                    if isinstance(a_, tuple) and isinstance(b_, tuple) and {a_[0], b_[0]} == {"type", "enum"}:
+                        t_ = a_ if a_[0] == "type" else b_
+                        e_ = a_ if a_[0] == "enum" else b_
+                        eq = (t_[1] == e_[1])
+                    else:
+                        eq = as_bool(a_) == as_bool(b_)
+                    return eq if k[1] == "==" else (not eq)
+                a2, b2 = as_bool(a_), as_bool(b_)
+                return (a2 and b2) if k[1] == "&&" else (a2 or b2)
+            return None
+        # the value written into the mode: occupied iff the factor creates
+        vk = ctx.key(f.nodes[Wt]["r"] if f.nodes[Wt]["k"] == "bin" else f.nodes[Wt]["args"][1])
+        wv = [tt(vk, c_, False) for c_ in (True, False)]
+        wv = [x[1] if isinstance(x, tuple) and x[0] == "type" else x for x in wv]
+        if cre[2] == 0 and all(isinstance(x, bool) for x in wv) and False:
+            pass
+        if None in wv or any(isinstance(x, tuple) for x in wv):
+            unknowns.append("the value written into the mode is not recognised as a function of the factor's type")
+        elif wv != [True, False]:
             probs.append("the mode is not set to 'occupied iff the factor is a creation operator'")
-        else:
-            # facts at the write must exclude both Pauli-forbidden situations
-            def excluded(cre, occ):
-                # (op == creation) == cre  and  bit == occ  must contradict the facts
-                from pv.entail import contradicts
-                f1 = ("==" if cre else "!=",) + tuple(sorted([opv, ("enum", OP + "::creation", 0)], key=repr))
-                f2 = ("true" if occ else "false", bit)
-                alt1 = ("!=" if cre else "==",) + tuple(sorted([opv, ("enum", OP + "::annihilation", 1)], key=repr))
-                # the guard is a disjunction: on the fall-through edge both disjuncts are false, i.e. for each: not(a) or not(b)
-                return None
-            rets_err = [j for j, n in f.walk(f.body) if n["k"] == "return" and key_contains(ctx.key(n["sub"]), lambda y: y == ("global", "Pomerol::ERROR_FOCK_STATE"))]
-            pauli = False
-            for j in rets_err:
-                par = None
-                for a_ in f.ancestors(j):
-                    if f.nodes[a_]["k"] == "if":
-                        par = a_
-                        break
-                if par is None:
-                    continue
-                ck = ctx.key(f.nodes[par]["c"])
-                cre, ann = ("enum", OP + "::creation", 0), ("enum", OP + "::annihilation", 1)
-                bitb = ("mcall", "boost::dynamic_bitset::reference::operator bool", bit)
-                want = {(("op", "==", opv, cre), bitb), (("op", "==", opv, ann), ("un", "!", bitb))}
-                got = set()
-                if ck[0] == "op" and ck[1] == "||":
-                    for d_ in ck[2:]:
-                        if d_[0] == "op" and d_[1] == "&&":
-                            a1, b1 = d_[2], d_[3]
-                            a1 = ("op", "==", a1[3], a1[2]) if a1[0] == "op" and a1[1] == "==" and a1[2][0] == "enum" else a1
-                            got.add((a1, b1))
-                if got == want and f.cfg.dominates(f.cfg.pos1(f.nodes[par]["c"]), f.cfg.pos1(Wt)):
-                    pauli = True
-            if not pauli:
-                probs.append("the Pauli test (creation on an occupied mode or annihilation on an empty one returns the error state) does not precede the bit write in exactly this form")
+        # Pauli test: the error state is returned exactly when (creation on an occupied mode) or (annihilation on an empty one)
+        rets_err = [j for j, n in f.walk(f.body) if n["k"] == "return" and key_contains(ctx.key(n["sub"]), lambda y: y == ("global", "Pomerol::ERROR_FOCK_STATE"))]
+        pauli = None
+        for j in rets_err:
+            par = None
+            for a_ in f.ancestors(j):
+                if f.nodes[a_]["k"] == "if":
+                    par = a_
+                    break
+            if par is None or not f.cfg.dominates(f.cfg.pos1(f.nodes[par]["c"]), f.cfg.pos1(Wt)):
+                continue
+            ck = ctx.key(f.nodes[par]["c"])
+            table = [tt(ck, c_, o_) for c_ in (True, False) for o_ in (True, False)]
+            table = [x[1] if isinstance(x, tuple) and x[0] == "type" else x for x in table]
+            if None in table or any(isinstance(x, tuple) for x in table):
+                pauli = "unknown"
+            elif table == [True, False, False, True]:
+                pauli = "ok"
+            else:
+                pauli = "bad"
+                break
+        if pauli is None:
+            probs.append("no Pauli test (creation on an occupied mode or annihilation on an empty one returns the error state) precedes the bit write")
+        elif pauli == "bad":
+            probs.append("the Pauli test that precedes the bit write does not reject exactly (creation on an occupied mode) and (annihilation on an empty mode)")
+        elif pauli == "unknown":
+            unknowns.append("the condition of the Pauli test is not recognised")
         # sign: loop j in [0, ind) flipping when bra[j]
         sgn_ok = False
         for j, n in f.walk(f.body):
             if n["k"] == "for" and j not in Ls[-1:]:
                 shp = loop_shape(f, ctx, j)
-                if shp["kind"] == "index" and shp["rel"] == "<" and shp["bound"][:2] == ind[:2] and not shp["exits"]:
+                bnd_raw = ctx.cmp_fact(f.nodes[j]["c"], True) if f.nodes[j].get("c") is not None else []
+                ind_full = ctx.key(f.nodes[Wt]["l"] if f.nodes[Wt]["k"] == "bin" else f.nodes[Wt]["args"][0])[3]
+                if shp["kind"] == "index" and shp["rel"] == "<" and (shp["bound"][:2] == ind[:2] or shp["bound"] == ind_full) and not shp["exits"]:
                     st = value_key(f, ctx, envs, f.nodes[f.nodes[j]["init"]]["vars"][0]["init"], j) if f.nodes[j].get("init") is not None else None
                     flips = [x for x, m_ in f.walk(shp["body"]) if is_sign_flip(ctx, m_)]
                     if st == ("lit", 0) and len(flips) == 1:
@@ -324,6 +433,8 @@ def body(chk, db, cfgname):
             probs.append("the sign is not (-1)^(number of occupied modes j with 0 <= j < ind), evaluated before the bit is written")
         if probs:
             r3.bad(OP + "::actRight(monomial,ket)", f.loc(), "; ".join(probs), cfgname)
+        elif unknowns:
+            r3.unknown(OP + "::actRight(monomial,ket)", f.loc(), "; ".join(unknowns), cfgname)
         else:
             r3.ok(OP + "::actRight(monomial,ket)", f.loc(), "right-to-left, Pauli test, sign over occupied modes in [0,ind), bit := creator", cfgname)
 
@@ -373,13 +484,13 @@ def body(chk, db, cfgname):
         else:
             # accepted: a count restricted to i < Nmodes
             good = False
-            acc = [j for j, n in ng.walk(ng.body) if n["k"] == "bin" and n["op"] == "+="]
-            for j in acc:
-                Ls = enclosing_loops(ng, j)
-                shp = loop_shape(ng, gctx, Ls[0]) if Ls else None
-                if shp is not None and shp["kind"] == "index" and shp["start"] == ("lit", 0) and key_contains(("x", shp["bound"]) + tuple(shp.get("extra", [])), lambda y: y == nmodes):
-                    rk2 = gctx.key(ng.nodes[j]["r"], inline=False)
-                    if rk2 in (("mcall", "boost::dynamic_bitset::test", ket, shp["var"]), ("op", "[]", ket, shp["var"])):
+            for oc in occupied_counts(ng, gctx, ket):
+                shp = oc["loop"]
+                if shp["kind"] == "index" and shp["start"] == ("lit", 0) and oc["elem"][:2] == shp["var"][:2] and not [e for e in shp["exits"] if e[1] != "stop-condition"] and \
+                        key_contains(("x", shp["bound"]) + tuple(shp.get("extra", [])), lambda y: y == nmodes):
+                    b_ = shp["bound"]
+                    # the bound is Nmodes itself, or min(Nmodes, ket.size()), or Nmodes with a second condition i < ket.size()
+                    if b_ == nmodes or (b_[0] == "call" and b_[1].startswith("std::min") and nmodes in [strip_conv(x) for x in b_[2:]]) or shp.get("extra"):
                         good = True
             if good:
                 r5.ok(site, ng.loc(), "counts the occupied modes i < Nmodes, as the polynomial sum_{i<Nmodes} n_i does", cfgname)
@@ -408,26 +519,33 @@ def body(chk, db, cfgname):
         rets = [j for j, n in sg.walk(sg.body) if n["k"] == "return"]
         rk = gctx.key(sg.nodes[rets[0]]["sub"], inline=False)
         counts = {}
-        for j, n in sg.walk(sg.body):
-            if n["k"] == "bin" and n["op"] == "+=":
-                k = gctx.key(j, inline=False)
-                Ls = enclosing_loops(sg, j)
-                if k[3][0] == "mcall" and k[3][1] == "boost::dynamic_bitset::test" and k[3][2] == ket and Ls:
-                    lp = sg.nodes[Ls[0]]
+        for oc in occupied_counts(sg, gctx, ket):
+            shp = oc["loop"]
+            for cont in (up, dn):
+                if covers(shp, cont) and (oc["elem"] in [x for x in __import__("pv.loops", fromlist=["element_keys"]).element_keys(shp, cont)] or
+                                           (oc["elem"][0] in ("un", "op") and oc["elem"][1] == "*" and oc["elem"][2][:2] == shp["var"][:2])):
+                    counts[cont] = oc["acc"]
+                elif shp["kind"] == "other" and shp.get("var") is None:
+                    # iterator declared before the loop and only advanced in the for-header:  for (; it != V.end(); it++)
+                    lp = sg.nodes[shp["node"]]
                     cnd = gctx.cmp_fact(lp["c"], True) if lp.get("c") is not None else []
-                    for cont in (up, dn):
-                        if any(x[0] == "!=" and key_contains(x, lambda y: y == ("mcall", "std::vector::end", cont)) for x in cnd):
-                            counts[cont] = k[2]
+                    if any(x[0] == "!=" and key_contains(x, lambda y: y[0] == "mcall" and y[1].split("::")[-1] == "end" and y[2] == cont) for x in cnd):
+                        counts[cont] = oc["acc"]
         site = PRE + "Sz:shortcut-vs-polynomial"
         good = False
         if up in counts and dn in counts and rk[0] == "op" and rk[1] == "*":
             fac = [x for x in rk[2:] if x[0] == "lit"]
             diff = [x for x in rk[2:] if x[0] == "op" and x[1] == "-"]
-            good = bool(fac) and fac[0][1] == 0.5 and bool(diff) and diff[0][2][:2] == counts[up][:2] and diff[0][3][:2] == counts[dn][:2]
+            good = bool(fac) and fac[0][1] == 0.5 and bool(diff) and strip_conv(diff[0][2])[:2] == counts[up][:2] and strip_conv(diff[0][3])[:2] == counts[dn][:2]
         if poly_ok and good:
             r5.ok(site, sg.loc(), "0.5*(#occupied up - #occupied down) over the same index lists as +0.5 n(up_i) - 0.5 n(down_i)", cfgname)
         elif not poly_ok:
             r5.bad(site, gt.loc(), "the polynomial form of S_z is not sum_i (+1/2 n(up_i) - 1/2 n(down_i))", cfgname)
+        elif key_contains(gctx.key(sg.nodes[rets[0]]["sub"]), lambda y: y == ("mcall", "boost::dynamic_bitset::count", ket)):
+            r5.bad(site, sg.loc(), "the shortcut uses ket.count(), the number of ALL occupied modes of the state, while the polynomial form only involves the operator's own spin-up / spin-down index lists: "
+                   "for an S_z built over a subset of the modes the specialised operator and its generic form disagree", cfgname)
+        elif not (up in counts and dn in counts):
+            raise AnalysisBroken("Sz::getMatrixElement(ket): the two counts over the spin-up / spin-down index lists were not recognised")
         else:
             r5.bad(site, sg.loc(), "the shortcut is not 1/2 (number of occupied spin-up indices - number of occupied spin-down indices) over the operator's own index lists: it disagrees with the polynomial form "
                    "(e.g. when the operator covers a subset of the modes)", cfgname)
@@ -512,6 +630,45 @@ def body(chk, db, cfgname):
                     else:
                         r6.unknown(site, g.loc(), "hand-written comparison loop: both ranges are exhausted where it answers 'equal', the element-wise part is not analysed", cfgname)
     chk.undecided.append("correctness of the recursive bubble sort for every polynomial (associativity, CAR, agreement with Jordan-Wigner matrices) — needs an inductive proof, not a structural rule")
+
+
+def occupied_counts(g, gctx, ket):
+    """accumulations of the form  acc += ket.test(e) | ket[e]   or   if (ket.test(e)) ++acc   inside a loop over an index set.
+    Returns list of dicts {acc: key, loop: shape, elem: key of e}"""
+    out = []
+    at_ = None
+    for j, n in g.walk(g.body):
+        acc = e = None
+        if n["k"] == "bin" and n["op"] == "+=":
+            rk = gctx.key(n["r"], inline=False)
+            while rk[0] == "cast":
+                rk = rk[2]
+            if rk[0] == "mcall" and rk[1] == "boost::dynamic_bitset::test" and rk[2] == ket:
+                acc, e = gctx.key(n["l"], inline=False), rk[3]
+            elif rk[0] == "op" and rk[1] == "[]" and rk[2] == ket:
+                acc, e = gctx.key(n["l"], inline=False), rk[3]
+        elif n["k"] == "un" and n["op"] == "++":
+            at_ = at_ or guard_facts(g, gctx)
+            fa = at_.get(g.cfg.pos1(j), frozenset())
+            for x in fa:
+                if x[0] == "true":
+                    t = x[1]
+                    if t[0] == "mcall" and t[1].endswith("operator bool") and len(t) == 3:
+                        t = t[2]
+                    if (t[0] == "mcall" and t[1] == "boost::dynamic_bitset::test" and t[2] == ket) or (t[0] == "op" and t[1] == "[]" and t[2] == ket):
+                        acc, e = gctx.key(n["sub"], inline=False), t[3]
+        if acc is None:
+            continue
+        Ls = [L for L in enclosing_loops(g, j) if g.nodes[L]["k"] in ("for", "forrange")]
+        if Ls:
+            out.append({"acc": acc, "loop": loop_shape(g, gctx, Ls[0]), "elem": e, "node": j})
+    return out
+
+
+def strip_conv(k):
+    while isinstance(k, tuple) and ((k[0] == "cast" and len(k) == 3) or (k[0] == "ctor" and len(k) == 3)):
+        k = k[2]
+    return k
 
 
 def is_sign_flip(ctx, m_):
